@@ -11,3 +11,4 @@ pub mod trees;
 pub mod world;
 
 pub use engine::{Outcome, Plan, Prop, Tier};
+pub mod tracelog;
